@@ -53,6 +53,11 @@ ASSUMPTIONS = [
     "tags are lists of str (or absent) on the writer side; on the reader side any JSON value whose effect on str(record) is determined "
     "(null, string, list of strings, numbers, booleans); nested arrays / objects / non-integral floats where a member is interpreted are "
     "outside the model (counted as outside-model); the file is read after the handler was closed",
+    "writer level gates: every run goes through setup_logging(level, logger_name = root or 'gallia') and add_zst_log_handler('gallia', ..., "
+    "file_log_level) in a fresh process with GALLIA_LOGLEVEL unset (level=None then means DEBUG) and logging.disable untouched; records are "
+    "logged on 'gallia' and its descendants (loggers created by get_logger stay at NOTSET); Logger.isEnabledFor / getEffectiveLevel / "
+    "QueueHandler / QueueListener(respect_handler_level) are represented by their contracts (Model/PenlogGate.lean); a logger level set by "
+    "user code after setup_logging is outside the model",
     "standard input is a pipe (read once: a second `-` sees nothing); files the process may not read are not exercised (the check runs as "
     "root); hr's output is compared without colours (--color is parsed into the plan, ANSI styling is not modelled), month names as in "
     "the C locale",
@@ -1336,7 +1341,12 @@ MANIFEST = {
                    "without the <prio> prefix, and the prefix priority equals the record's; level <-> priority is a bijection on the "
                    "7 levels (table regenerated from the live enums); forward / reverse / offset k / tail n / head n / len over the "
                    "offset table equal filter, reverse, drop, drop (len - n), take, length of the logged sequence for all logs, also "
-                   "shorter than n and empty. Schema: a logging.LogRecord (any of the 7 levels incl. TRACE / NOTICE, tags present / empty / "
+                   "shorter than n and empty. Writer gates (file_gets_every_record_at_or_above_file_level): for every console level of "
+                   "setup_logging, every file level >= 1 and every sequence of records on the configured logger or any descendant the file "
+                   "gets exactly the records at or above the FILE level, in order (with --trace-log: all of them, trace_log_file_gets_all); "
+                   "tied by runs of the real setup_logging + add_zst_log_handler + PenlogReader in fresh processes over every console level "
+                   "(explicit, get_log_level(0..3), None) x file level (get_file_log_level with / without --trace-log, explicit) x root / "
+                   "'gallia' logger. Schema: a logging.LogRecord (any of the 7 levels incl. TRACE / NOTICE, tags present / empty / "
                    "absent, exception text, timestamp with microseconds and any whole-second UTC offset) through QueueHandler.prepare, "
                    "_JSONFormatter.format and emit is read back by parse_json as exactly the expected PenlogRecord, all members "
                    "(record_roundtrip); isoformat is inverted by a port of CPython's fromisoformat for every valid datetime; the "
